@@ -381,3 +381,19 @@ Theorem C01_round_trip_honest :
       Compose_provider.pbid_of (of_wire wB) = PreconfBidder.r_sent rn.
 Proof. exact Compose_provider.round_trip_honest_provider_side. Qed.
 Print Assumptions C01_round_trip_honest.
+
+(* Every use of the node key, not only written commitments: whenever a handler hands a digest d to SignHash
+   -- also when the signer then fails, the settlement submission fails or the write fails, so that no
+   commitment is ever returned -- d is the commitment hash, as the signer model computes it, of the bid that
+   very handler read from the wire, and that handler had passed the role check, VerifyBid and the allowance
+   check.  Premise: the ConstructPreConfirmation answers consumed by handlers are the signer model's
+   ([constructed_history]); non-vacuity: Compose_signed.ex_signed_digest. *)
+From MevVerif Require proofs.Compose_signed.
+Theorem C01_signed_digest : forall K cr addr evs h d,
+  Compose_provider.constructed_history K cr rules_validators (node_wiring addr) evs ->
+  In (HSign h d) (heff (run K rules_validators (node_wiring addr) evs)) ->
+  exists o b a,
+    In (Arrive h role_bidder o) evs /\ o_read o = Some b /\ o_verify o = VOk a /\ o_allow o = true /\
+    commitment_hash K (Compose_provider.commit_stub (Compose_provider.to_wire b)) = Ok d.
+Proof. exact Compose_signed.signed_digest_is_commitment_hash. Qed.
+Print Assumptions C01_signed_digest.
